@@ -452,6 +452,7 @@ def run(chk):
                                      lambda I, S: ([idlist(I)], {}), plugin=True)),
         ("timeouts", lambda chk: seg_simple(chk, "jobs.workq.handletimeouts", JOBS, "workq.handletimeouts", lambda I, S: ([], {}))),
         ("dropdead", lambda chk: seg_simple(chk, "jobs.workq.dropdead", JOBS, "workq.dropdead", lambda I, S: ([], {}))),
+        ("handle_client", lambda chk: seg_handle_client(chk)),
     ]
     segs = [(n, f) for n, f in segs if not only or n in only.split(",")]
     for name, fn in segs:
@@ -471,3 +472,161 @@ def run(chk):
         "job ids are abstracted to integers (0 = None); channels to integers",
         "NOT PROVED: invariant clause I4a after segment B of rpc_qpull (see the comment in contracts/c16.py); covered by the bounded history search only",
     ]
+
+
+# ----------------------------------------------------------------------------- rpcserver.Server.handle_client: a vanished connection always reaches shutdown()
+
+
+def seg_handle_client(chk):
+    """"handed out again only if its worker's connection drops": the only code that re-queues the jobs of a dropped
+    connection is the request handler's shutdown().  Exit-frame contract of handle_client: once a request handler
+    exists, shutdown() is called exactly once on EVERY exit - normal end of input, protocol error, exception in the
+    handler, GreenletExit while waiting, and I/O errors (BrokenPipe / ECONNRESET) in write / flush / close."""
+    from pyvc.interp import LoopSpec, SymRaise
+    from pyvc.values import ExcVal
+    rel = "qs/rpcserver.py"
+    ex = Explorer()
+    ex.models["gevent.GreenletExit"] = GREENLET_EXIT
+    mod = source.module(rel)
+    scls = ClassRef(mod.defs["Server"], mod)
+    fn = ex.function(rel, "Server.handle_client")
+
+    def io_fault(I, what):
+        if I.decide(I.fresh("io_error_in_" + what, z3.BoolSort())):
+            I.ghost["faults"].append(what)
+            I.throw("BrokenPipeError", what)
+
+    def killed(I, what):
+        if I.decide(I.fresh("killed_in_" + what, z3.BoolSort())):
+            raise SymRaise(ExcVal(GREENLET_EXIT, []))
+
+    def m(name, fn_):
+        return Model(name, fn_)
+    ex.methods[("sock", "close")] = m("socket.close", lambda I, s: io_fault(I, "sock.close"))
+    # precondition: makefile on the accepted socket succeeds (no handler exists before it; a failure there is outside C16)
+    ex.methods[("sock", "makefile")] = m("socket.makefile", lambda I, s, *a: PObj("sockfile", {}))
+    ex.methods[("sockfile", "write")] = m("file.write", lambda I, f, d: io_fault(I, "write"))
+    ex.methods[("sockfile", "flush")] = m("file.flush", lambda I, f: io_fault(I, "flush"))
+
+    def sf_close(I, f):
+        # close() flushes what a failed write / flush left in the buffer: it fails again after such a failure
+        if "write" in I.ghost["faults"] or "flush" in I.ghost["faults"]:
+            I.ghost["faults"].append("close")
+            I.throw("BrokenPipeError", "close")
+        io_fault(I, "close")
+    ex.methods[("sockfile", "close")] = m("file.close", sf_close)
+    ex.models["gevent.getcurrent"] = m("getcurrent", lambda I: I.ghost["current"])
+    ex.methods[("greenlet", "link")] = m("Greenlet.link", lambda I, g, f: None)
+    ex.methods[("greenlet", "kill")] = m("Greenlet.kill", lambda I, g, *a, **k: None)
+    ex.setattr_hooks["greenlet"] = lambda I, o, n, v: o.fields.__setitem__(n, v)
+    ex.models["gevent.spawn"] = m("gevent.spawn", lambda I, f, *a: PObj("greenlet", {}))
+    ex.models["gevent.queue.Queue"] = m("queue.Queue", lambda I: PObj("queue", {}))
+
+    def q_get(I, q):
+        killed(I, "lineq.get")           # yield point: the reader greenlet kills this one when the peer vanishes
+        if I.decide(I.fresh("end_of_input", z3.BoolSort())):
+            return ""
+        s = I.fresh_str("line")
+        I.assume(z3.Length(s.z) > 0)
+        return s
+    ex.methods[("queue", "get")] = m("Queue.get [yield point]", q_get)
+
+    def j_loads(I, line):
+        if I.decide(I.fresh("malformed_request", z3.BoolSort())):
+            I.throw("ValueError", "no json")
+        return PObj("request", {})
+    for jm in ("json", "simplejson"):
+        ex.models[jm + ".loads"] = m("json.loads", j_loads)
+        ex.models[jm + ".dumps"] = m("json.dumps", lambda I, o, **k: I.fresh_str("json"))
+
+    def handler_call(I, req):
+        k = I.choose(3, "handler_outcome")
+        if k == 1:
+            I.throw("RuntimeError", "handler failed")
+        if k == 2:
+            raise SymRaise(ExcVal(GREENLET_EXIT, []))      # killed inside a blocking rpc (qpull waiting for a job)
+        return PObj("result", {})
+    ex.methods[("handler", "__call__")] = m("request handler", handler_call)
+
+    def handler_shutdown(I, h):
+        I.ghost["shutdowns"] += 1
+    ex.methods[("handler", "shutdown")] = m("request handler.shutdown", handler_shutdown)
+
+    def get_handler(I, srv, **kw):
+        I.ghost["handler_created"] = True
+        return PObj("handler", {})
+    ex.methods[("Server", "get_request_handler")] = m("Server.get_request_handler", get_handler)
+    ex.methods[("Server", "is_allowed")] = m("Server.is_allowed", lambda I, srv, ip: I.fresh_bool("allowed"))
+    ex.methods[("Server", "log")] = m("Server.log", lambda I, srv, msg: None)
+
+    def srv_getattr(I, o, name):
+        mm = ex.methods.get(("Server", name))
+        if mm is not None and name in ("get_request_handler", "is_allowed", "log"):
+            from pyvc.values import BoundMethod
+            return BoundMethod(o, mm)
+        return NotImplemented
+    ex.getattr_hooks["Server"] = srv_getattr
+    ex.loopspecs[(fn.ident, 0)] = LoopSpec(lambda I, v, it: [("no_shutdown_while_serving", I.ghost["shutdowns"] == 0),
+                                                             ("no_failed_write_is_survived", not I.ghost["faults"])])
+
+    def harness(I):
+        I.ghost.update({"shutdowns": 0, "faults": [], "handler_created": False, "current": PObj("greenlet", {})})
+        me = PObj(scls, {"client_count": 0})
+        out = ex.run_function(I, fn, [me, PObj("sock", {}), ("10.0.0.1", 4711)])
+        if I.ghost["handler_created"]:
+            I.oblige("shutdown_runs_exactly_once_on_every_exit" + ("" if I.ghost["shutdowns"] == 1 else f"[after {'+'.join(I.ghost['faults']) or 'no fault'}: {I.ghost['shutdowns']} calls]"),
+                     I.ghost["shutdowns"] == 1)
+        else:
+            I.oblige("no_shutdown_without_a_handler", I.ghost["shutdowns"] == 0)
+    chk.prove("rpcserver.Server.handle_client", harness, ex, targets=[fn], replay=replay_handle_client)
+
+
+def replay_handle_client(model, obligation):
+    """the real handle_client on stand-in socket objects whose flush fails (and whose close then fails again, as a
+    buffered file does): is the request handler's shutdown() reached?"""
+    import gevent
+    from qs import rpcserver
+    calls = []
+
+    class Handler:
+        def __call__(self, req):
+            return {"ok": 1}
+
+        def shutdown(self):
+            calls.append("shutdown")
+
+    class F:
+        def __init__(self):
+            self.lines = ['{"method": "qpull"}\n', ""]
+            self.failed = False
+
+        def readline(self):
+            return self.lines.pop(0) if self.lines else ""
+
+        def write(self, d):
+            pass
+
+        def flush(self):
+            self.failed = True
+            raise BrokenPipeError("flush")
+
+        def close(self):
+            if self.failed:
+                raise BrokenPipeError("close flushes again")
+
+    class S:
+        def makefile(self, *a):
+            return F()
+
+        def close(self):
+            pass
+    srv = rpcserver.Server.__new__(rpcserver.Server)
+    srv.client_count = 0
+    srv.is_allowed = lambda ip: True
+    srv.get_request_handler = lambda **kw: Handler()
+    g = gevent.spawn(srv.handle_client, S(), ("10.0.0.1", 1))
+    g.join(timeout=5)
+    if calls != ["shutdown"]:
+        return True, {"schedule": "worker sends a request, the response cannot be written (BrokenPipe in flush; close fails again)",
+                      "shutdown_calls": len(calls), "consequence": "running_jobs of the connection are never re-queued: the job is lost until its timeout"}, "no_shutdown_after_io_error"
+    return False, {"cases": 1}, None
